@@ -14,7 +14,7 @@ from typing import Any, Dict, List, Optional
 
 import numpy
 
-from .. import core, model, fileseam
+from .. import prelude, core, model, fileseam
 from ..model import gen_poly
 from ..runner import NUMPOLY_DIR
 
@@ -92,7 +92,7 @@ def generate(rs: int, tier: str, index: int) -> dict:
         step["rows"] = [[float(ch.choice([-2, 0, 1, 2.5, 3])) for _ in range(cols)] for _ in range(rows)]
         step["target"] = ch.choice(["simtext", "simbytes", "path_str", "pathlike"])
         step["locale"] = "utf-8"
-    return {"property": ID, "run_seed": rs, "tier": tier, "steps": [step]}
+    return {"property": ID, "run_seed": rs, "tier": tier, "prelude": prelude.gen_prelude(core.Chooser(rs, "prelude")), "steps": [step]}
 
 
 # ---------------------------------------------------------------------------
@@ -425,6 +425,7 @@ def execute(plan: dict) -> dict:
         with warnings.catch_warnings():
             warnings.simplefilter("ignore")
             with numpy.errstate(all="ignore"):
+                prelude.run_prelude(plan.get("prelude"), runner.stats)
                 runner.run()
     finally:
         logging.disable(logging.NOTSET)
@@ -432,6 +433,10 @@ def execute(plan: dict) -> dict:
 
 
 def simplify(plan: dict):
+    if plan.get("prelude"):
+        yield dict(plan, prelude=None)
+        for i in range(len(plan["prelude"])):
+            yield dict(plan, prelude=plan["prelude"][:i] + plan["prelude"][i + 1:] or None)
     step = plan["steps"][0]
     if step.get("view") and step["view"] != "none":
         yield dict(plan, steps=[dict(step, view="none")])
